@@ -214,10 +214,10 @@ pub fn integer_divide_float_quarters_8bit<S: Src>(s: &mut S) {
 pub fn integer_divide_float_out_of_range<S: Src>(s: &mut S) {
     let x = s.f64();
     let y = s.f64();
-    s.assume(x.is_finite() && y.is_finite());
+    s.assume(x.is_finite() && y.is_finite() && y != 0.0);
     let r = Float(x).integer_divide(Float(y));
     let d = x / y;
-    if y != 0.0 && !(d > -2147483649.0 && d < 2147483648.0) { s.check(r.is_none(), "out_of_range_is_none"); }
+    if !(d > -2147483649.0 && d < 2147483648.0) { s.check(r.is_none(), "out_of_range_is_none"); }
 }
 
 pub fn unary_float<S: Src>(s: &mut S) {
